@@ -66,12 +66,22 @@ def parent_key(prog, inst):
     return p[:p.index('::{closure#')]
 
 
-def f_panic(ctx, prog, reach, label, overrides=None, rule='F-PANIC'):
+def f_panic(ctx, prog, reach, label, overrides=None, rule='F-PANIC', pre_sites=None):
     ext_table = jtable('ext_callees.json')
     site_table = jtable('panic_sites.json')
     keys = sorted(reach)
     sites, done, visited = root_runs(prog, keys, overrides if overrides is not None else l1.decoder_overrides())
     done_paths = set(prog.get(k)['path'] for k in done)
+    if pre_sites:
+        # assert statistics gathered by the caller's own (loop-head) interpretations of some of these functions
+        for site, rec in pre_sites.items():
+            r = sites.setdefault(site, {'ok': 0, 'open': 0, 'fail': 0})
+            for f_ in ('ok', 'open', 'fail'):
+                r[f_] += rec[f_]
+            for k in keys:
+                if prog.get(k)['path'] == site[0]:
+                    done.add(k)
+        done_paths = set(prog.get(k)['path'] for k in done)
     ctx.count(rule + '.functions', len(keys))
     ctx.count(rule + '.functions_summarised', len(done))
     used = {}
